@@ -511,6 +511,31 @@ def rule_r4(prog, res):
                         'unresolved by resolve_entities=False) is '
                         'substituted into the value user code receives' % (
                             f.qualname, unparse(c)[:40]))
+    # the element-to-dict converter behind AnyDict arguments
+    ec = prog.module('spyne.util.etreeconv', required=False)
+    if ec is not None:
+        for nm in ('etree_to_dict', 'root_etree_to_dict'):
+            f = ec.functions.get(nm)
+            if f is None:
+                continue
+            n += 1
+            bad = [c for c in calls_in(f.node)
+                   if call_name(c) in TEXT_HARVESTERS and isinstance(
+                       c.func, ast.Attribute)]
+            res.ob('R4', f.where, '%s: %s' % (nm, 'reads .text only'
+                                              if not bad else
+                                              'harvests text with %s' %
+                                              [unparse(c)[:30] for c in bad]),
+                   'VIOLATED' if bad else 'ok')
+            for c in bad:
+                res.finding('R4', '%s|text-harvest|%s' % (nm, call_name(c)),
+                            '%s:%d' % (ec.relpath, c.lineno),
+                            '%s (the reader of AnyDict arguments) computes a '
+                            'value with %s: libxml2\'s text serialisation '
+                            'substitutes the replacement text of entity '
+                            'reference nodes, so internal entities reach '
+                            'user code although the parser resolved '
+                            'nothing' % (nm, unparse(c)[:40]))
     res.floor('R4', 'primitive element readers', n, 4)
 
 
@@ -629,6 +654,11 @@ _S = 'spyne/protocol/soap/soap11.py'
 _M = 'spyne/protocol/soap/mime.py'
 
 MUTANTS = [
+    Mutant('anydict-mixed-content-text', 'R4', 'fire',
+           'spyne/util/etreeconv.py',
+           in_func('etree_to_dict', "        retval = element.text\n",
+                   "        retval = etree.tostring(element, method='text', "
+                   "encoding='unicode')\n"), 'text-harvest'),
     Mutant('parser-encoding-from-self', 'R5', 'fire', _X,
            in_func('XmlDocument.__init__', "            encoding=encoding,\n",
                    "            encoding=self.encoding,\n"),
